@@ -80,20 +80,31 @@ Definition pair_eqb (a b : Z * Z) : bool := (fst a =? fst b) && (snd a =? snd b)
 
 Definition mon_close (cl : list Z) (c : Z) : list Z := if zmem c cl then cl else c :: cl.
 
-Definition mon_step (cfg : config) (m : mon) (o : op) : mon :=
-  match o with
-  | Observe c oa =>
-      match counts cfg (m_closed m) c oa with
-      | Some lx =>
-          match get Z.eqb c (m_cred m) with
-          | Some old => if pair_eqb old lx then m   (* the same report again *)
-                        else mkMon (set Z.eqb c lx (m_cred m)) (m_closed m)
-          | None => mkMon (set Z.eqb c lx (m_cred m)) (m_closed m)
-          end
-      | None => m
+Definition mon_observe (cfg : config) (m : mon) (c : Z) (oa : obsaddr) : mon :=
+  match counts cfg (m_closed m) c oa with
+  | Some lx =>
+      match get Z.eqb c (m_cred m) with
+      | Some old => if pair_eqb old lx then m   (* the same report again *)
+                    else mkMon (set Z.eqb c lx (m_cred m)) (m_closed m)
+      | None => mkMon (set Z.eqb c lx (m_cred m)) (m_closed m)
       end
+  | None => m
+  end.
+
+Definition mon_disconnect (m : mon) (c : Z) : mon :=
+  mkMon (del Z.eqb c (m_cred m)) (mon_close (m_closed m) c).
+
+(* [f]: for ObserveDuring, whether the scripted disconnect was delivered (an
+   action of the environment, recorded by the harness).  If it was, the
+   connection d closed before the report was taken in: the report then is one
+   on the connections as they are after that disconnect. *)
+Definition mon_step (cfg : config) (m : mon) (o : op) (f : bool) : mon :=
+  match o with
+  | Observe c oa => mon_observe cfg m c oa
   | MarkClosed c => mkMon (m_cred m) (mon_close (m_closed m) c)
-  | Disconnect c => mkMon (del Z.eqb c (m_cred m)) (mon_close (m_closed m) c)
+  | Disconnect c => mon_disconnect m c
+  | ObserveDuring c oa d =>
+      if f then mon_observe cfg (mon_disconnect m d) c oa else mon_observe cfg m c oa
   end.
 
 (* observer groups of the connections vouching for x on l (with repetitions) *)
@@ -165,7 +176,7 @@ Fixpoint mon_run (cfg : config) (m : mon) (i : Z) (tr : list (op * obs)) : list 
   match tr with
   | [] => []
   | (o, ob) :: r =>
-      let m' := mon_step cfg m o in
+      let m' := mon_step cfg m o (o_fired ob) in
       match mon_check cfg m' ob with
       | [] => mon_run cfg m' (i + 1) r
       | d => ERR_PROPERTY :: i :: d
@@ -177,7 +188,8 @@ Definition holds (cfg : config) (tr : list (op * obs)) : bool :=
 
 (* ---- conformance: the model replayed against the observations ---------------- *)
 Definition obs_eqb (a b : obs) : bool :=
-  list_eqb (list_eqb Z.eqb) (o_for a) (o_for b) && list_eqb pair_eqb (o_all a) (o_all b).
+  list_eqb (list_eqb Z.eqb) (o_for a) (o_for b) && list_eqb pair_eqb (o_all a) (o_all b)
+  && Bool.eqb (o_fired a) (o_fired b).
 
 Fixpoint first_for_diff (i : Z) (a b : list (list Z)) : Z :=
   match a, b with
@@ -191,7 +203,7 @@ Fixpoint conform_run (cfg : config) (st : state) (i : Z) (tr : list (op * obs)) 
   | [] => []
   | (o, ob) :: r =>
       let st' := step cfg st o in
-      let mo := observe cfg st' in
+      let mo := observe cfg st' (fired cfg o) in
       if obs_eqb mo ob then conform_run cfg st' (i + 1) r
       else [ERR_MISMATCH; i; first_for_diff 0 (o_for mo) (o_for ob)]
   end.
@@ -213,6 +225,10 @@ Fixpoint conform_run (cfg : config) (st : state) (i : Z) (tr : list (op * obs)) 
                           of observed thin waists are their rank under Multiaddr.Compare
           | 2 c                                 conn c: IsClosed() becomes true
           | 3 c                                 conn c: IsClosed() true and removeConn(c)
+          | 4 c lb n64 relay otw ofam oproto d fired
+                          as op 1, with a hook on the listenAddrs() call made inside
+                          shouldRecordObservation: there conn d gets IsClosed() true and
+                          removeConn(d) is delivered; fired = 1 iff the hook was reached
    observation := (k x_1..x_k){nQ}   AddrsFor(query_j) as observed thin-waist ids
                                       (-9 = an address the harness cannot attribute)
                   k (x rest){k}      Addrs(0)
@@ -282,22 +298,24 @@ Fixpoint take_lists (n : nat) (l : list Z) : option (list (list Z) * list Z) :=
     end
   end.
 
-Definition take_obs (nq : nat) (l : list Z) : option (obs * list Z) :=
+Definition take_obs (nq : nat) (f : bool) (l : list Z) : option (obs * list Z) :=
   match take_lists nq l with
   | Some (fs, r) =>
       match take_counted_pairs r with
-      | Some (ps, r') => Some (mkO fs ps, r')
+      | Some (ps, r') => Some (mkO fs ps f, r')
       | None => None
       end
   | None => None
   end.
 
-Definition take_op (l : list Z) : option (op * list Z) :=
+Definition take_op (l : list Z) : option (op * bool * list Z) :=
   match l with
   | 1 :: c :: lb :: n64 :: rl :: ot :: ofam :: opr :: r =>
-      Some (Observe c (mkObs (zbool lb) (zbool n64) (zbool rl) (tw_of ot ofam opr)), r)
-  | 2 :: c :: r => Some (MarkClosed c, r)
-  | 3 :: c :: r => Some (Disconnect c, r)
+      Some (Observe c (mkObs (zbool lb) (zbool n64) (zbool rl) (tw_of ot ofam opr)), false, r)
+  | 2 :: c :: r => Some (MarkClosed c, false, r)
+  | 3 :: c :: r => Some (Disconnect c, false, r)
+  | 4 :: c :: lb :: n64 :: rl :: ot :: ofam :: opr :: d :: f :: r =>
+      Some (ObserveDuring c (mkObs (zbool lb) (zbool n64) (zbool rl) (tw_of ot ofam opr)) d, zbool f, r)
   | _ => None
   end.
 
@@ -309,8 +327,8 @@ Fixpoint decode_steps (nq : nat) (fuel : nat) (l : list Z) : option (list (op * 
     | [] => Some []
     | _ =>
       match take_op l with
-      | Some (o, r) =>
-          match take_obs nq r with
+      | Some (o, fl, r) =>
+          match take_obs nq fl r with
           | Some (ob, r') =>
               match decode_steps nq f r' with
               | Some t => Some ((o, ob) :: t)
